@@ -79,9 +79,12 @@ theorem stepNG_ctl (s : Shared) (b : Bool) (ng : NG) (hc : CtlBeyond s) (m : Nat
     | some k => simp only [stepNG]; split <;> (simp only [Shared.setNode, upd]; split <;> simp_all)
     | none => simp only [stepNG]; split <;> (simp only [Shared.setNode, upd]; split <;> simp_all)
   | trav => simp [stepNG]
-  | cc0 n => simp [stepNG]
+  | cc0 n =>
+    simp only [stepNG]; split
+    · simp only [Shared.setNode, upd]; split <;> simp_all
+    · simp
   | cc1 n => simp [stepNG]
-  | cc2 n =>
+  | cc2 n idle =>
     simp only [stepNG]; split
     · simp only [Shared.setNode, upd]; split <;> simp_all
     · simp
